@@ -612,6 +612,21 @@ def _nested(case, ctx):
                           "replace the component of that list by name", names=[n for n, _ in now], target=tgt, replaced=dict(now).get(tgt) is repl, stray_attribute=hasattr(est2, tgt))
             except Exception as e:  # noqa
                 ctx.check("nested.replace", False, "nested:replace:list-and-component-in-one-call-raises-%s" % type(e).__name__, "set_params(list=..., name=estimator) raised %r" % e)
+            # two components exchanged by name in ONE call: both replacements take effect, the rest of the list stays
+            est5 = zoo.build(spec)
+            lst5 = list(getattr(est5, attr2))
+            if len(lst5) >= 2:
+                mkr = lambda c: NaiveForecaster(strategy="mean", window_length=3) if isinstance(c, BaseForecaster) else LogTransformer()  # noqa
+                picks = [0, len(lst5) - 1] if case["pick"] % 2 else [len(lst5) - 1, len(lst5) - 2]
+                repl5 = {lst5[j][0]: mkr(lst5[j][1]) for j in picks}
+                try:
+                    est5.set_params(**repl5)
+                    now5 = list(getattr(est5, attr2))
+                    good = len(now5) == len(lst5) and all(n2 == n1 and (c2 is repl5[n1] if n1 in repl5 else c2 is c1) for (n1, c1), (n2, c2) in zip(lst5, now5))
+                    ctx.check("nested.replace", good, "nested:replace:two-components-in-one-call", "set_params(name_a=estimator, name_b=estimator) did not replace exactly these two components",
+                              names=[n for n, _ in now5], replaced={n: bool(dict(now5).get(n) is v) for n, v in repl5.items()})
+                except Exception as e:  # noqa
+                    ctx.check("nested.replace", False, "nested:replace:two-components-in-one-call-raises-%s" % type(e).__name__, "set_params replacing two components raised %r" % e)
             est3 = zoo.build(spec)
             owner3 = est3
             stale = old_list[0][0]
